@@ -43,6 +43,9 @@ type Req struct {
 	Method string `json:"method"`
 	Host   string `json:"host"`
 	Path   string `json:"path"`
+	// Escaped: Path is the escaped form a server received (URL.RawPath), e.g. "/files/a%2Fb"; URL.Path is its decoded form.
+	// The router routes on the escaped form, so Path stays the routing path either way.
+	Escaped bool `json:"escaped,omitempty"`
 }
 
 // Hit is what a handler observed.
@@ -52,6 +55,25 @@ type Hit struct {
 	Params   []ref.Param `json:"params"`
 	Scope    fox.HandlerScope
 	RouteNil bool
+	// Wrapped is what a net/http handler adapted with fox.WrapF sees through fox.ParamsFromContext for the same request
+	// (route handlers only): the adapters promise the same parameters as Context.Params.
+	Wrapped []ref.Param `json:"wrapped,omitempty"`
+}
+
+// WrapMismatch describes a difference between Context.Params and the parameters handed to a wrapped net/http handler, "" if none.
+func (h Hit) WrapMismatch() string {
+	if h.Kind != "route" || len(h.Params) == 0 && len(h.Wrapped) == 0 {
+		return ""
+	}
+	if len(h.Params) != len(h.Wrapped) {
+		return fmt.Sprintf("a handler adapted with fox.WrapF sees params %v through ParamsFromContext, Context.Params gives %v", h.Wrapped, h.Params)
+	}
+	for i := range h.Params {
+		if h.Params[i] != h.Wrapped[i] {
+			return fmt.Sprintf("a handler adapted with fox.WrapF sees params %v through ParamsFromContext, Context.Params gives %v", h.Wrapped, h.Params)
+		}
+	}
+	return ""
 }
 
 // Sink receives the hits of the handlers of one router.
@@ -142,7 +164,13 @@ func EffectiveTS(g Global, r RouteSpec) int {
 // Handler returns the recording route handler for a pattern.
 func (s *Sink) Handler(pattern string) fox.HandlerFunc {
 	return func(c fox.Context) {
-		s.Hits = append(s.Hits, Hit{Kind: "route", Pattern: c.Pattern(), Params: Collect(c), Scope: c.Scope(), RouteNil: c.Route() == nil})
+		hit := Hit{Kind: "route", Pattern: c.Pattern(), Params: Collect(c), Scope: c.Scope(), RouteNil: c.Route() == nil}
+		fox.WrapF(func(_ http.ResponseWriter, r *http.Request) {
+			for _, p := range fox.ParamsFromContext(r.Context()) {
+				hit.Wrapped = append(hit.Wrapped, ref.Param{Key: p.Key, Value: p.Value})
+			}
+		})(c)
+		s.Hits = append(s.Hits, hit)
 		_ = pattern
 		c.Writer().WriteHeader(http.StatusOK)
 	}
@@ -208,6 +236,11 @@ func (r *Router) Methods() []string {
 // NewRequest builds a request whose URL.Path is exactly path (no RawPath) and whose Host is host.
 func NewRequest(q Req) *http.Request {
 	u := &url.URL{Scheme: "http", Host: "placeholder", Path: q.Path}
+	if q.Escaped {
+		if dec, err := url.PathUnescape(q.Path); err == nil && dec != q.Path {
+			u.Path, u.RawPath = dec, q.Path
+		}
+	}
 	req := &http.Request{
 		Method: q.Method, URL: u, Proto: "HTTP/1.1", ProtoMajor: 1, ProtoMinor: 1,
 		Header: http.Header{}, Host: q.Host, RemoteAddr: "192.0.2.1:1234", RequestURI: q.Path,
